@@ -54,6 +54,7 @@ type Obligation struct {
 	Expect  string // "unsat" (default) or "sat" for reach/pre-sat covers
 	Text    string // human-readable goal
 	fx      *FuncVC
+	Decided *ObResult // already decided outside the solvers (facts evaluated on initialised tables)
 }
 
 // havocSet is the set of locations a loop may modify, discovered by iteration.
